@@ -5,7 +5,7 @@ from .common import (Case, HELD, VIOLATED, INCONCLUSIVE, TERM, bad_outcome, file
 ID = "C12"
 LEVEL = "exploration"
 BUILDS = ["rel"]
-BUDGET_S = {"quick": 150, "thorough": 2400}
+BUDGET_S = {"quick": 600, "thorough": 2400}
 RULE = ("Well-nested files generated for every registered suffix (C03's generator) are damaged in exactly one tag: a start or "
         "end tag deleted, duplicated or neutralised (`<block`->`<xblock`, `</block>`->`</xblock>`) at any nesting depth. "
         "The damaged file is placed alone or among 1-5 healthy files (other languages, sub-directories) and examined in scan "
